@@ -49,7 +49,10 @@ RULE = ("Runs: the runs of C01's enumeration (feature trees x step-outcome devia
         "e-acute and U+1F600) executed in child interpreters started with an ASCII locale (LC_ALL=C, PYTHONUTF8=0, "
         "PYTHONCOERCECLOCALE=0; verified in the child) and with a UTF-8 locale as control: the oracle is applied to the "
         "bytes of the reports (expat assumes UTF-8 without declaration) and the non-ASCII text must be in the parsed "
-        "documents. Oracle (per reported feature): the TESTS-*.xml file exists "
+        "documents. Configuration changed after construction: config.show_skipped flipped on the config object after the "
+        "reporter was built (before the run / in before_all through context.config / before the first / between two "
+        "features) x initial value x 2 shapes, three features the last of which is entirely skipped: every document "
+        "reflects the value held when its feature was reported. Oracle (per reported feature): the TESTS-*.xml file exists "
         "(unless the feature is skipped and hidden) and parses with expat; its testcase entries are the feature's "
         "scenarios in order (outline rows included, skipped ones iff shown) with the final status of the Scenario object "
         "that was executed (recorded by a formatter during the run; a post-run model that holds other objects/statuses "
@@ -59,6 +62,10 @@ RULE = ("Runs: the runs of C01's enumeration (feature trees x step-outcome devia
         "names the first non-passing step or the raising hook; nothing escapes run(). Non-trivial = distinct run whose "
         "reports hold a failure, error or skipped entry, or that carries a hostile atom.")
 ASSUMPTIONS = [
+    "an option that the reporter consults on the Configuration object (show_skipped) counts with the value the object "
+    "holds when a feature is reported (the statement says 'skipped ones when shown'; the unchanged reporter reads it live "
+    "through a property); the behave.reporter.junit.* userdata switches and junit_directory are only exercised with "
+    "values fixed before construction (the statement does not say when they are read)",
     "ModelRunner (unlike Runner) does not set config.base_dir, which JUnitReporter.make_feature_filename needs: the check "
     "sets config.base_dir = cwd, so the report of feature file fN.feature is TESTS-fN.xml",
     "XML 1.0 forbids some characters outright: hostile names are compared modulo the atom (stable prefix) unless the atom "
@@ -279,7 +286,7 @@ class HostileHookError(Exception):
     pass
 
 
-def run_text(texts, args, assign=(), feat_hook=None):
+def run_text(texts, args, assign=(), feat_hook=None, flip=None):
     """Local variant of harness.run_case for given feature texts: real Configuration, real parser, real ModelRunner,
     fresh StepRegistry; step functions / hooks place the message- and output-slot atoms.
     Scenario names select hook faults (Hook<XX> prefix), tags boombefore*/boomafter* make the tag hooks raise.
@@ -300,6 +307,11 @@ def run_text(texts, args, assign=(), feat_hook=None):
     try:
         config = m["Configuration"](list(args), load_config=False)
         config.base_dir = os.getcwd()
+        # flip = (when, option, value): the option is changed ON THE CONFIG OBJECT after the reporters were constructed
+        # by the Configuration: when = "constructed" (before the run) | "before_all" (through context.config) |
+        # ("before_feature", k) (between feature k-1 and feature k)
+        if flip and flip[0] == "constructed":
+            setattr(config, flip[1], flip[2])
         reg = m["StepRegistry"]()
 
         def make_step(kind):
@@ -336,6 +348,9 @@ def run_text(texts, args, assign=(), feat_hook=None):
         def make_hook(name):
             def hook(ctx, *args):
                 print(mark("stdout", u"hookout %s" % name))
+                if flip and ((name == "before_all" and flip[0] == "before_all") or
+                             (name == "before_feature" and flip[0] == ("before_feature", [id(x) for x in feats].index(id(args[0]))))):
+                    setattr(ctx.config, flip[1], flip[2])
                 if name == feat_hook:
                     boom(name)
                 if name in ("before_scenario", "after_scenario"):
@@ -512,7 +527,7 @@ def trigger_class(info):
     return "hostile-text" if info.get("atoms") else "plain"
 
 
-def check_reports(v, feats, outdir, shown, info, filemap=None):
+def check_reports(v, feats, outdir, shown_at, info, filemap=None):
     """compare every report in outdir with the model; appends violations to v; -> structural summary (for dg/out)
     filemap: {feature index: report file name} when the names are discovered (discover_reports) instead of known"""
     hostile = bool(info.get("hostile"))
@@ -522,11 +537,15 @@ def check_reports(v, feats, outdir, shown, info, filemap=None):
     expected_files = []
     for fi, feature in enumerate(feats):
         fname = "TESTS-f%d.xml" % fi if filemap is None else filemap.get(fi, "(no document)")
+        # shown_at: bool, or {feature index: value of "skipped are shown" WHEN that feature was reported}
+        shown = shown_at[fi] if isinstance(shown_at, dict) else shown_at
         fstatus = feature.status.name
         present = fname in files
         if not present:
             if not (fstatus == "skipped" and not shown) and not info.get("escaped"):
                 desc = {"subcheck": "report", "clause": "missing", "feature_status": fstatus, "shown": str(bool(shown))}
+                if info.get("config_changed"):
+                    desc["config_changed"] = info["config_changed"]
                 if info.get("addressing"):      # files on disk: the trigger class is how this feature was addressed
                     desc = {"subcheck": "report", "clause": "missing", "addressing": info["addr_of"].get(fi, "?")}
                 v.append((desc,
@@ -575,9 +594,12 @@ def check_reports(v, feats, outdir, shown, info, filemap=None):
             else:
                 extra = [g for g in got_ids if g[0] not in ws]
                 missing = [w for w in want_ids if w[0] not in gs]
-                v.append(({"subcheck": "testcases", "clause": "set", "shown": str(bool(shown)),
-                           "extra_status": "+".join(sorted(set(g[1] for g in extra))),
-                           "missing_status": "+".join(sorted(set(w[1] for w in missing)))},
+                desc = {"subcheck": "testcases", "clause": "set", "shown": str(bool(shown)),
+                        "extra_status": "+".join(sorted(set(g[1] for g in extra))),
+                        "missing_status": "+".join(sorted(set(w[1] for w in missing)))}
+                if info.get("config_changed"):
+                    desc["config_changed"] = info["config_changed"]
+                v.append((desc,
                           "%s lists testcases %s, the feature's scenarios%s are %s"
                           % (fname, got_ids, "" if shown else " (skipped hidden)", want_ids)))
         elif hostile and info.get("roundtrip"):
@@ -741,7 +763,7 @@ def finish(v, summary, case, nontrivial, marks=()):
         else:
             classes.add(item[1])
     interesting = nontrivial or any(c for c in classes if not isinstance(c, tuple) or
-                                    (c[0] not in ("seen", "addressed", "rowless-block", "locale") and c[1:] != (False, False, False)))
+                                    (c[0] not in ("seen", "addressed", "rowless-block", "locale", "flip") and c[1:] != (False, False, False)))
     return {"v": v, "dg": flat, "out": tuple(sorted(map(repr, classes))), "n": 1,
             "nt": digest(case) if interesting else None}
 
@@ -998,6 +1020,54 @@ def run_locale(case):
             r["case"] = (envkey, (programs[k],))
             results.append(r)
         return results
+    finally:
+        shutil.rmtree(d, ignore_errors=True)
+
+
+# ------------------------------------------------------------------ configuration changed after construction
+FLIP_SECOND = (u"Feature: Second\n  Scenario: Tail\n    Given step 1 pass\n  @skipme\n  Scenario: TailSkipped\n"
+               u"    Given step 2 pass\n  Scenario Outline: TailOut\n    Given step 3 <o>\n    @skipme\n    Examples: H\n"
+               u"      | o |\n      | pass |\n    Examples: V\n      | o |\n      | fail |\n")
+FLIP_THIRD = u"@skipme\nFeature: Third\n  Scenario: Never\n    Given step 1 pass\n"
+FLIP_WHEN = ("never", "constructed", "before_all", ("before_feature", 0), ("before_feature", 1))
+
+
+def flip_cases():
+    for shape in ("mixed", "outline"):
+        for when in FLIP_WHEN:
+            for initial in (True, False):
+                yield (shape, when, initial)
+
+
+def run_flip(case):
+    """case = (shape, when, initial show_skipped): config.show_skipped is flipped on the config object after the
+    JUnitReporter was constructed; three features (the last one entirely skipped by tags). The document of a feature
+    must reflect the value the config object holds when that feature is reported."""
+    shape, when, initial = case
+    d = tempfile.mkdtemp(dir=SHM, prefix="c16run-%d-" % _run_tag())
+    try:
+        args = ["--junit", "--junit-directory", d, "--no-summary", "--show-skipped" if initial else "--no-skipped",
+                "--tags=not skipme"]
+        flip = None if when == "never" else (when, "show_skipped", not initial)
+        texts = [render_hostile(shape, ()), FLIP_SECOND, FLIP_THIRD]
+        escaped, feats, config, raised, rec = run_text(texts, args, (), None, flip)
+        v = []
+        first_new = {"never": len(texts), "constructed": 0, "before_all": 0}.get(when, when[1] if isinstance(when, tuple) else 0)
+        shown_at = {fi: (initial if fi < first_new else not initial) for fi in range(len(texts))}
+        cls = when if isinstance(when, str) else "between-features" if when[1] else "before-first-feature"
+        info = {"hostile": True, "atoms": (), "raised": raised, "roundtrip": True,
+                "config_changed": "show_skipped:" + cls, "trigger": "config-changed:" + cls}
+        if when == "never":
+            del info["config_changed"]
+        if bool(config.show_skipped) != shown_at[len(texts) - 1]:
+            raise AssertionError("harness: the flip %r did not reach the config object" % (when,))
+        execution_truth(v, feats, rec, info)
+        if escaped:
+            info["escaped"] = True
+            escaped_violation(v, escaped, info, feats)
+        summary = check_reports(v, feats, d, shown_at, info)
+        summary.append(("escaped", escaped and escaped[0]))
+        return finish(v, summary, case, True, [("flip", cls)])
     finally:
         shutil.rmtree(d, ignore_errors=True)
 
@@ -1263,6 +1333,7 @@ def run(ctx):
               "the child started with LC_ALL=C PYTHONUTF8=0 PYTHONCOERCECLOCALE=0 really has an ASCII preferred encoding "
               "(otherwise the locale sweep is not applicable on this machine)")
     ctx.guard("('locale', 'utf-8', 'applicable')" in flat_loc, "the control child has a UTF-8 preferred encoding")
+    ctx.sweep(run_flip, flip_cases(), chunk=2, name="config.show_skipped changed after the reporter was constructed")
     ctx.sweep(run_addressed, addressed_cases(), chunk=4, name="feature files on disk x how they are addressed (real Runner)")
     ctx.sweep(run_hostile, switch_cases(), chunk=16, name="128 userdata switch combinations x 3 shapes")
     ctx.sweep(run_hostile, pair_cases(ctx.tier), chunk=32, name="hostile pairs on the small shape")
